@@ -117,6 +117,13 @@ func ruleR12_2(r *Run) {
 					"Data."+s.fld+" is changed but a success exit is reachable without "+p.Name()+": after a restart or crash the counter falls back and labels can be issued twice / per-version maxima are lost", w.pos(s.in.Pos()), w.renderPath(path)...)
 				r.check(lockHeldAt(f, s.in, "mlMu", true), construct+":under-mlMu", "mlMu is write-locked at the store",
 					"Data."+s.fld+" is written without holding mlMu for writing: concurrent allocations can hand out the same label", w.pos(s.in.Pos()))
+				// R12.6 (reported under this rule's constructs): the decision to move the counter is taken on a
+				// value of a counter read inside the write-locked section
+				if s.fld != "NextLabel" {
+					okDec, why := decidedUnderLock(f, s.in, s.fld)
+					r.check(okDec, construct+":raise-decided-under-write-lock", "the stored value, or a comparison guarding the store, derives from a counter read with mlMu write-held",
+						"Data."+s.fld+" is moved on the strength of a counter value read before the write lock was taken ("+why+"): of two concurrent updates the smaller can be written last, so the counter goes backwards and a later allocation can collide with a label already present", w.pos(s.in.Pos()))
+				}
 			}
 		}
 		if n < 4 {
@@ -318,6 +325,51 @@ func ruleR12_5(r *Run) {
 		r.check(ok, "repoManager.loadMetadata:versionID-above-known", "versionID is raised to (known version id)+k, k ≥ 1, over all of versionToUUID",
 			"the loader no longer raises the version-id counter above every known version id", w.fpos(lm))
 	}
+	if lm != nil {
+		// every correction of an id counter at load time only raises it: the store is on the true edge of
+		// `x > counter` (or `counter < x`) and stores x (+k, k ≥ 0)
+		n := 0
+		for _, fld := range []string{"instanceID", "versionID", "repoID"} {
+			for _, st := range fieldStores(lm, "repoManager", fld) {
+				n++
+				okRaise := false
+				for _, b := range lm.Blocks {
+					ifi, ok := b.Instrs[len(b.Instrs)-1].(*ssa.If)
+					if !ok {
+						continue
+					}
+					bo, ok := ifi.Cond.(*ssa.BinOp)
+					if !ok {
+						continue
+					}
+					var x, cur ssa.Value
+					switch bo.Op {
+					case token.GTR, token.GEQ:
+						x, cur = bo.X, bo.Y
+					case token.LSS, token.LEQ:
+						x, cur = bo.Y, bo.X
+					default:
+						continue
+					}
+					if !isFieldLoad(stripConv(cur), "repoManager", fld) || !guardedByEdge(ifi, 0, st) {
+						continue
+					}
+					l := lin(st.Val, 0)
+					if !l.ok || l.c < 0 {
+						continue
+					}
+					for _, rv := range rootsOfLin(st.Val) {
+						if sameLoadOrValue(rv, x) {
+							okRaise = true
+						}
+					}
+				}
+				r.check(okRaise, fmt.Sprintf("repoManager.loadMetadata:%s:correction-only-raises", fld), "the load-time correction is on the true edge of `x > counter` and stores x (+k)",
+					"a load-time correction can move the "+fld+" counter backwards (it is not guarded by a comparison with the loaded counter): ids issued before the restart are issued again", w.pos(st.Pos()))
+			}
+		}
+		r.check(n >= 2, "repoManager.loadMetadata:id-corrections", fmt.Sprintf("%d corrections", n), "load-time corrections of the id counters not found", w.fpos(lm))
+	}
 	ll := w.method("datatype/labelmap", "Data", "loadLabelIDs")
 	if ll == nil {
 		r.violation("labelmap.loadLabelIDs", "not found", "-")
@@ -365,4 +417,179 @@ func rootsOfLin(v ssa.Value) []ssa.Value {
 	}
 	rec(v, 0)
 	return out
+}
+
+// decidedUnderLock: the store to a label counter either stores a value derived from a read of a
+// label counter made with mlMu write-held, or is guarded by a comparison that depends on such a read.
+func decidedUnderLock(f *ssa.Function, store ssa.Instruction, fld string) (bool, string) {
+	isCounterRead := func(v ssa.Value) bool {
+		if isFieldLoad(v, "Data", "MaxRepoLabel") || isFieldLoad(v, "Data", "NextLabel") {
+			return true
+		}
+		if lk, ok := v.(*ssa.Lookup); ok && isFieldLoad(lk.X, "Data", "MaxLabel") {
+			return true
+		}
+		return false
+	}
+	// forward closure of locked counter reads
+	derived := map[ssa.Value]bool{}
+	var work []ssa.Value
+	nLocked, nUnlocked := 0, 0
+	for _, b := range f.Blocks {
+		for _, in := range b.Instrs {
+			v, ok := in.(ssa.Value)
+			if !ok || !isCounterRead(v) {
+				continue
+			}
+			if lockHeldAt(f, in, "mlMu", true) {
+				nLocked++
+				derived[v] = true
+				work = append(work, v)
+			} else {
+				nUnlocked++
+			}
+		}
+	}
+	for len(work) > 0 {
+		v := work[len(work)-1]
+		work = work[:len(work)-1]
+		if v.Referrers() == nil {
+			continue
+		}
+		for _, ref := range *v.Referrers() {
+			switch x := ref.(type) {
+			case *ssa.BinOp, *ssa.Extract, *ssa.Convert, *ssa.ChangeType, *ssa.UnOp:
+				if u, ok := x.(*ssa.UnOp); ok && u.Op == token.MUL {
+					continue
+				}
+				xv := x.(ssa.Value)
+				if !derived[xv] {
+					derived[xv] = true
+					work = append(work, xv)
+				}
+			case *ssa.Store:
+				// spilled local (named result with defer): its loads are derived when every store is
+				if al, ok := x.Addr.(*ssa.Alloc); ok && x.Val == v {
+					all := true
+					for _, r2 := range *al.Referrers() {
+						if st, ok := r2.(*ssa.Store); ok && st.Addr == ssa.Value(al) {
+							if _, isC := st.Val.(*ssa.Const); !isC && !derived[st.Val] {
+								all = false
+							}
+						}
+					}
+					if all {
+						for _, r2 := range *al.Referrers() {
+							if ld, ok := r2.(*ssa.UnOp); ok && ld.Op == token.MUL && !derived[ld] {
+								derived[ld] = true
+								work = append(work, ld)
+							}
+						}
+					}
+				}
+			case *ssa.Phi:
+				// a phi is "decided under lock" only if all incoming values are derived or constants
+				all := true
+				for _, e := range x.Edges {
+					if _, isC := e.(*ssa.Const); !isC && !derived[e] {
+						all = false
+					}
+				}
+				if all && !derived[x] {
+					derived[x] = true
+					work = append(work, x)
+				}
+			}
+		}
+	}
+	var stored ssa.Value
+	switch x := store.(type) {
+	case *ssa.Store:
+		stored = x.Val
+	case *ssa.MapUpdate:
+		stored = x.Value
+	}
+	if stored != nil && derived[stripConv(stored)] {
+		return true, ""
+	}
+	// decisions on the same counter: closure restricted to locked reads of fld
+	same := map[ssa.Value]bool{}
+	var wk []ssa.Value
+	for v := range derived {
+		isSame := false
+		if fld == "MaxLabel" {
+			if lk, ok := v.(*ssa.Lookup); ok && isFieldLoad(lk.X, "Data", "MaxLabel") {
+				isSame = true
+			}
+		} else if isFieldLoad(v, "Data", fld) {
+			isSame = true
+		}
+		if isSame {
+			same[v] = true
+			wk = append(wk, v)
+		}
+	}
+	for len(wk) > 0 {
+		v := wk[len(wk)-1]
+		wk = wk[:len(wk)-1]
+		if v.Referrers() == nil {
+			continue
+		}
+		for _, ref := range *v.Referrers() {
+			switch x := ref.(type) {
+			case *ssa.BinOp, *ssa.Extract, *ssa.Convert, *ssa.ChangeType:
+				xv := x.(ssa.Value)
+				if !same[xv] {
+					same[xv] = true
+					wk = append(wk, xv)
+				}
+			case *ssa.UnOp:
+				if x.Op != token.MUL && !same[x] {
+					same[x] = true
+					wk = append(wk, x)
+				}
+			}
+		}
+	}
+	// the write-lock acquisition covering the store
+	var lock ssa.Instruction
+	for _, b := range f.Blocks {
+		for _, in := range b.Instrs {
+			c, ok := in.(*ssa.Call)
+			if !ok || c.Call.StaticCallee() == nil || c.Call.StaticCallee().Name() != "Lock" || len(c.Call.Args) == 0 {
+				continue
+			}
+			if fa, ok := c.Call.Args[0].(*ssa.FieldAddr); ok {
+				if nm, _, _ := fieldName(fa); nm == "mlMu" && domInstr(in, store) {
+					lock = in
+				}
+			}
+		}
+	}
+	if lock != nil {
+		decides := func(in ssa.Instruction) bool {
+			ifi, ok := in.(*ssa.If)
+			return ok && same[ifi.Cond]
+		}
+		if p := findPath(f, lock, decides, func(in ssa.Instruction) bool { return in == store }, nil); p == nil {
+			return true, ""
+		}
+	}
+	return false, fmt.Sprintf("%d counter reads under the write lock, %d outside it, none decides this store", nLocked, nUnlocked)
+}
+
+// sameLoadOrValue: identical values, or two loads of the same field of the same base object.
+func sameLoadOrValue(a, b ssa.Value) bool {
+	a, b = stripConv(a), stripConv(b)
+	if a == b {
+		return true
+	}
+	la, ok1 := a.(*ssa.UnOp)
+	lb, ok2 := b.(*ssa.UnOp)
+	if !ok1 || !ok2 || la.Op != token.MUL || lb.Op != token.MUL {
+		return false
+	}
+	fa, ok1 := la.X.(*ssa.FieldAddr)
+	fb, ok2 := lb.X.(*ssa.FieldAddr)
+	return ok1 && ok2 && fa.Field == fb.Field && fa.X == fb.X
 }
